@@ -518,4 +518,7 @@ def r22b(ctx):
 def run(ctx):
     r22a(ctx)
     r22b(ctx)
+    # a typed element read back after its id was re-used must not see the removed element's values (R08c)
+    from rules import C08
+    C08.r08c(ctx)
     return 0
